@@ -43,6 +43,9 @@ func c10vars(c *h.Ctx, idx int, staged bool, assign string, r *h.Rand) {
 				val = fmt.Sprintf("%d%s", 9-lv, varLevels[lv])
 			default:
 				val = fmt.Sprintf("%c%s%d", "0123456789abcxyzABCXYZ"[r.Intn(22)], varLevels[lv], r.Intn(100))
+				if lv >= 2 && r.Chance(15) {
+					val = "" // a task or a stage that defines the name as empty still defines it
+				}
 			}
 			defs[lv][name] = val
 			want[name], wantLevel[name] = val, varLevels[lv]
